@@ -99,6 +99,20 @@ theorem tok_orig_text (cfg : Cfg) (re : Re) (inp : Input) (toks : List Tok)
   · right
     exact ⟨i, c, m, j, d, m', hs, by rw [← joinNl_origLines]; exact span_orig hs hre (ext_input ws inp)⟩
 
+/-- Where every token comes from. The model's matcher is asked about a *line and a column*
+(`re.norm i c` = `matcher.match(text_line, c)`: what matches may depend on the characters before `c` — `^`, `\b`,
+look-behind — and the model cannot ask about a slice of the line), and every token of the text is
+* either one such match at its own position: `t.s = (i+1, c+1)`, `t.e = (i+1, m.end()+1)`,
+* or a span token: opener `m` matched at `(i, c)`, closed by the body matcher *of that opener's own group*
+  `m.kind` (the group of the pattern, before synonyms — two span kinds reported under one synonym keep their
+  own closers), found at `(j, d)` behind the opener; the token is reported under `syn m.kind`. -/
+theorem tok_provenance (cfg : Cfg) (re : Re) (lines : List (List Char)) (toks : List Tok)
+    (h : tokenize B cfg re lines = .ok toks) :
+    ∀ t ∈ toks.dropLast,
+      (∃ i c m, IsPlain cfg re lines t i c m) ∨ (∃ i c m j d m', IsSpanTok cfg re lines t i c m j d m') := by
+  rw [bases_std] at h
+  exact tokenize_origin h
+
 /-- The span `get_orig_text` is given may be *any* span inside the text: the result is exactly the
 text between the two positions (slice of the whole text by character offsets). -/
 theorem orig_text_exact (inp : Input) (i j a b : Nat) (li lj : List Char)
@@ -474,6 +488,22 @@ example : (match LL.construct exCtor with
         [⟨2, some ";".toList, ⟨1, 1⟩, ⟨1, 2⟩⟩, ⟨4, some "foo".toList, ⟨1, 3⟩, ⟨1, 6⟩⟩, ⟨0, none, ⟨1, 6⟩, ⟨1, 6⟩⟩]
         100).map (·.map PTree.preorder)
     | .error _ => none) = some (.error (.parsing ⟨1, 1⟩)) := by
+  decide +kernel
+/-- two span kinds (1: `<`…`>`, 2: `[`…`]`) reported under one synonym (9), text `<]>[>]`: each span is closed
+by the closer of its own opener — `<]>` and `[>]` — although both tokens are named 9 -/
+example : (tokenize B ⟨[1, 2], [(1, 9), (2, 9)], [], 0⟩
+    (reOfTable [1, 2] [⟨[some ⟨1, 1, 0, 1⟩, none, none, some ⟨4, 2, 3, 4⟩, none, none],
+      [[some ⟨3, 0, 0, 2⟩, some ⟨3, 0, 1, 2⟩, some ⟨3, 0, 2, 2⟩, some ⟨5, 0, 3, 4⟩, some ⟨5, 0, 4, 4⟩, none],
+       [some ⟨2, 0, 0, 1⟩, some ⟨2, 0, 1, 1⟩, some ⟨6, 0, 2, 5⟩, some ⟨6, 0, 3, 5⟩, some ⟨6, 0, 4, 5⟩,
+        some ⟨6, 0, 5, 5⟩]]⟩])
+    ["<]>[>]".toList]).map (List.map fun t => (t.name, t.span)) =
+    .ok [(9, ⟨⟨1, 1⟩, ⟨1, 4⟩⟩), (9, ⟨⟨1, 4⟩, ⟨1, 7⟩⟩), (0, ⟨⟨1, 7⟩, ⟨1, 7⟩⟩)] := by
+  decide +kernel
+/-- a pattern with a context assertion (`^x`: `x` only in the first column): `re` matches `x` at column 0 and
+not at column 2 of `x x`, the same character is a token at (1,1) and a LexicalError at line 1, column 2 -/
+example : tokenize B ⟨[], [], [], 0⟩
+    (reOfTable [] [⟨[some ⟨1, 1, 0, 1⟩, some ⟨2, 2, 1, 2⟩, none], []⟩]) ["x x".toList] =
+    .error (.lexical ⟨1, 2⟩) := by
   decide +kernel
 example : ReAdv ⟨fun _ _ => none, fun _ _ _ => none⟩ := ⟨by simp, by simp⟩
 /-- a lexical error: `?` on line 2, column 3 (0-based) -/
